@@ -451,9 +451,10 @@ def rule_view_write(ctx: RuleContext, p: Program, rid: str) -> None:
                    f'then the items are refiltered by position; then the views are notified')
 
 
-def _drop_many_sem(p: Program, dm: Any) -> tuple[str, int]:
+def _drop_many_sem(p: Program, dm: Any, refusals: bool = False) -> tuple[str, int]:
     """drop_many interpreted over abstract wrappers: which token ranges it deletes, in which order relative to the item list update and
-    the notification, and what the item list holds afterwards"""
+    the notification, and what the item list holds afterwards.  refusals=True: batches that hold a position beyond the list (which the
+    deletion primitive refuses with IndexError) -- nothing may have been deleted when the refusal comes"""
     import itertools
     from . import possem
     from .tokenstore import TS
@@ -472,7 +473,10 @@ def _drop_many_sem(p: Program, dm: Any) -> tuple[str, int]:
             if isinstance(e, ast.Call) and isinstance(e.func, ast.Attribute) and isinstance(e.func.value, ast.Name) and env.get(e.func.value.id) is self.me:
                 args = [self.expr(a, env) for a in e.args]
                 if e.func.attr == '_del_tokens':
-                    self.events.append(('del', args[0], args[1], len(self.me.f['_repeated'].f['items'])))
+                    n_items = len(self.me.f['_repeated'].f['items'])
+                    if not (isinstance(args[0], int) and isinstance(args[1], int) and 0 <= args[0] < args[1] <= n_items):
+                        raise possem.Raised('IndexError: position beyond the list')
+                    self.events.append(('del', args[0], args[1], n_items))
                     return None
                 if e.func.attr in ('_notify', '_notify_splice'):
                     self.events.append(('notify', e.func.attr, tuple(args[:2])))
@@ -480,6 +484,29 @@ def _drop_many_sem(p: Program, dm: Any) -> tuple[str, int]:
             return super().expr(e, env)
 
     cases = 0
+    if refusals:
+        for n in range(1, 5):
+            for k in range(1, n + 1):
+                for sel in itertools.combinations(range(n), k):
+                    for beyond in (n, n + 2):
+                        for order in (list(sel) + [beyond], [beyond] + list(sel), sorted(sel, reverse=True) + [beyond]):
+                            items = [possem.Obj('Item', {}, f'item{i}') for i in range(n)]
+                            rep = possem.Obj('Repeated', {'items': list(items)}, 'repeated')
+                            me = possem.Obj('RepeatedNodeWrapper', {'_repeated': rep}, 'wrapper')
+                            it = Interp(me)
+                            cases += 1
+                            where_ = f'{n} items, positions {order}'
+                            try:
+                                it.call_function(dm, [me, list(order)], {})
+                                return f'{where_}: position {beyond} does not exist, yet the call is not refused', cases
+                            except possem.Raised:
+                                pass
+                            if any(ev[0] == 'del' for ev in it.events) or [id(x) for x in rep.f['items']] != [id(x) for x in items]:
+                                done = [(ev[1], ev[2]) for ev in it.events if ev[0] == 'del']
+                                return (f'{where_}: position {beyond} does not exist and the call is refused with IndexError, but the token ranges {done} '
+                                        f'have already been deleted (item list {"changed" if len(rep.f["items"]) != n else "unchanged"}): the printed text '
+                                        f'lost those items while the tree still lists them'), cases
+        return '', cases
     for n in range(0, 6):
         for k in range(0, n + 1):
             for sel in itertools.combinations(range(n), k):
@@ -1189,3 +1216,17 @@ def rule_view_sem(ctx: RuleContext, p: Program, rid: str, max_raw: int = 4) -> N
             continue
         ctx.check(meth not in problems, rid, f'models.internal.value_properties:RepeatedValueWrapper.{meth}', 'list semantics of the filtered view',
                   problems.get(meth, ''), fn.where, note=f'{len(layouts)} raw layouts')
+
+
+# ====================================================================== DROP-REFUSE (C19, added after seeded round 6)
+def rule_drop_refuse(ctx: RuleContext, p: Program, rid: str) -> None:
+    ctx.rule(rid, 'drop_many, interpreted on batches of positions that contain one beyond the end of the list (in any order of the batch): the '
+                  'deletion primitive refuses that position with IndexError, and at that moment no token range has been deleted and the item '
+                  'list is untouched -- the refused batch leaves text and tree as they were')
+    nw = p.cls('RepeatedNodeWrapper', 'models.internal.properties')
+    dm = p.method(nw, 'drop_many', inherited=False)
+    problem, cases = _drop_many_sem(p, dm, refusals=True)
+    if cases < 100 and not problem:
+        raise AnalysisError(f'DROP-REFUSE: only {cases} batches evaluated')
+    ctx.check(not problem, rid, 'models.internal.properties:RepeatedNodeWrapper.drop_many', problem or 'ok',
+              f'drop_many on a batch with a position that does not exist: {problem}', dm.where, note=f'{cases} refused batches')
